@@ -50,6 +50,51 @@ type Ctx struct {
 	NotDecided  []string
 	Assumptions []string
 	SelfTest    *SelfTest
+	aliases     map[string]string
+}
+
+// Alias makes obligations recorded under rule id `from` appear under `to` (a rule shared between
+// two properties is reported under each property's own id). Alias(from, "") removes it.
+func (c *Ctx) Alias(from, to string) {
+	if c.aliases == nil {
+		c.aliases = map[string]string{}
+	}
+	if to == "" {
+		delete(c.aliases, from)
+		return
+	}
+	c.aliases[from] = to
+}
+
+// Drop removes every obligation, rule text and counter recorded under the given rule id.
+func (c *Ctx) Drop(rule string) {
+	var keep []*Obligation
+	for _, o := range c.Obligations {
+		if o.Rule != rule {
+			keep = append(keep, o)
+		}
+	}
+	c.Obligations = keep
+	delete(c.RuleDocs, rule)
+	for k := range c.Stats {
+		if strings.HasPrefix(k, rule+":") {
+			delete(c.Stats, k)
+		}
+	}
+	var errs []string
+	for _, e := range c.Errors {
+		if !strings.HasPrefix(e, rule+":") {
+			errs = append(errs, e)
+		}
+	}
+	c.Errors = errs
+}
+
+func (c *Ctx) ruleID(id string) string {
+	if a, ok := c.aliases[id]; ok {
+		return a
+	}
+	return id
 }
 
 // NewCtx creates a context.
@@ -58,10 +103,10 @@ func NewCtx(p *load.Program, property, tier string) *Ctx {
 }
 
 // Rule registers the template text of a rule (for evidence).
-func (c *Ctx) Rule(id, doc string) { c.RuleDocs[id] = doc }
+func (c *Ctx) Rule(id, doc string) { c.RuleDocs[c.ruleID(id)] = doc }
 
 func (c *Ctx) add(rule, construct string, v Verdict, pos, detail string, witness []string) *Obligation {
-	o := &Obligation{Rule: rule, Construct: construct, Verdict: v, Pos: pos, Detail: detail, Witness: witness}
+	o := &Obligation{Rule: c.ruleID(rule), Construct: construct, Verdict: v, Pos: pos, Detail: detail, Witness: witness}
 	c.Obligations = append(c.Obligations, o)
 	return o
 }
@@ -98,6 +143,7 @@ func (c *Ctx) Errorf(format string, a ...any) {
 
 // RequireCount is the vacuity guard: the subject of a rule must match at least min constructs.
 func (c *Ctx) RequireCount(rule, what string, got, min int) bool {
+	rule = c.ruleID(rule)
 	c.Stats[rule+":"+what] = got
 	if got < min {
 		c.Errorf("%s: vacuity guard: %s matched %d construct(s), expected at least %d (confirmed by hand)", rule, what, got, min)
